@@ -133,6 +133,7 @@ def run(run, ix, tier):
     check_mag(run, ix, lookup)
     check_ldexp_frexp(run, ix, lookup)
     check_mag_grid(run, ix, lookup)
+    check_fp_specials(run, ix)
     run.rule('N-R6', floor=2, desc='nint_distance: rational and mpf branches as closed forms on a grid')
     check_nint_distance(run, ix)
     check_nint_distance_specials(run, ix, lookup)
@@ -754,3 +755,99 @@ def enclosing(node):
     while not isinstance(node, ast.stmt):
         node = node._parent
     return node
+
+
+# --------------------------------------------------------------------------- N-R10
+def check_fp_specials(run, ix):
+    """N-R10 (third C39 hunt; repair a93bfbf).  The fp context implements mag and isnpint with math functions that do not
+    take every double: `math.frexp` gives the exponent 0 for inf and nan, `abs` of a complex overflows although both
+    parts are finite, a float conversion of an int overflows beyond 2**1024, and `round` raises for an infinity.
+    Decided for FPContext.mag: the frexp call is preceded by returns for nan (`z != z`) and for an infinite magnitude
+    (a comparison with math2.INF / an isinf call), ints leave through an `isinstance(z, int_types)` branch that has no
+    frexp, and `abs(<parameter>)` is not applied on a path where the parameter may be complex.  For FPContext.isnpint:
+    every `round(x)` is a later conjunct of an `and` whose earlier conjuncts exclude the infinities (`x - x == 0.0` or an
+    isinf / isfinite call)."""
+    FP = 'mpmath/ctx_fp.py'
+    run.rule('N-R10', floor=5, desc='fp.mag and fp.isnpint take infinities, nan, large complex numbers and large ints')
+    f = ix.func(FP, 'FPContext.mag')
+    z = f.params[1]
+    fre = [c for c in _walk_own(f.node) if isinstance(c, ast.Call) and norm(c.func).split('.')[-1] == 'frexp']
+    if not fre:
+        raise AnalysisError('FPContext.mag: frexp call vanished')
+    first = min(c.lineno for c in fre)
+
+    def returns_before(pred, what):
+        for i in _walk_own(f.node):
+            if isinstance(i, ast.If) and i.lineno < first and pred(i.test) and i.body and \
+                    isinstance(i.body[-1], ast.Return) and norm(i.body[-1].value) == what:
+                return i
+        return None
+    nan_t = returns_before(lambda t: norm(t).replace(' ', '') in ('%s!=%s' % (z, z),) or
+                           (isinstance(t, ast.Call) and norm(t.func).split('.')[-1] == 'isnan'), 'ctx.nan')
+    inf_t = returns_before(lambda t: 'INF' in norm(t) or 'ctx.inf' in norm(t) or
+                           any(isinstance(c, ast.Call) and norm(c.func).split('.')[-1] == 'isinf' for c in ast.walk(t)), 'ctx.inf')
+    int_t = None
+    for i in _walk_own(f.node):
+        if isinstance(i, ast.If) and i.lineno < first and norm(i.test).replace(' ', '') == 'isinstance(%s,int_types)' % z and \
+                i.body and isinstance(i.body[-1], ast.Return) and \
+                not any(isinstance(c, ast.Call) and norm(c.func).split('.')[-1] in ('frexp', 'float') for b in i.body for c in ast.walk(b)):
+            int_t = i
+    for got, what, why in ((nan_t, 'nan', 'math.frexp(nan) has the exponent 0: fp.mag(nan) is 0 (mp.mag(nan) is nan)'),
+                           (inf_t, 'an infinity', 'math.frexp(inf) has the exponent 0: fp.mag(inf) is 0 although the '
+                                                   'property asks for +inf (and inf > 2**0)'),
+                           (int_t, 'an int', 'an int is pushed through float: fp.mag(10**400) raises OverflowError '
+                                             '(mp.mag gives 1329)')):
+        if got is not None:
+            run.ok('N-R10', 'mag: %s leaves before frexp (line %d)' % (what, got.lineno))
+        else:
+            run.fail(Finding('N-R10', FP, f.qualname, norm(fre[0]), 'no return for %s before the frexp call: %s' % (what, why),
+                             line=fre[0].lineno))
+    # abs(z) only where z is not complex
+    bad_abs = None
+    for c in _walk_own(f.node):
+        if isinstance(c, ast.Call) and norm(c.func) == 'abs' and c.args and norm(c.args[0]) == z:
+            ok = False
+            p_ = c
+            while p_ is not f.node:
+                par = p_._parent
+                if isinstance(par, ast.If) and any(p_ is b or any(p_ is y for y in ast.walk(b)) for b in par.orelse):
+                    t = norm(par.test).replace(' ', '')
+                    if t in ('type(%s)iscomplex' % z, 'isinstance(%s,complex)' % z):
+                        ok = True
+                if isinstance(par, ast.If) and any(p_ is b or any(p_ is y for y in ast.walk(b)) for b in par.body) and \
+                        norm(par.test).replace(' ', '') == 'isinstance(%s,int_types)' % z:
+                    ok = True       # an int
+                p_ = par
+            if not ok:
+                bad_abs = c
+    if bad_abs is None:
+        run.ok('N-R10', 'mag: abs() of the argument is taken on the non-complex path only')
+    else:
+        run.fail(Finding('N-R10', FP, f.qualname, norm(bad_abs),
+                         'abs() of a complex number overflows for finite parts: fp.mag(1.5e308+1.5e308j) raises OverflowError '
+                         '(|x| = 2.12e308 <= 2**1025)', line=bad_abs.lineno))
+    g = ix.func(FP, 'FPContext.isnpint')
+    x = g.params[1]
+    rounds = [c for c in _walk_own(g.node) if isinstance(c, ast.Call) and norm(c.func) == 'round' and c.args and
+              norm(c.args[0]) == x]
+    if not rounds:
+        run.ok('N-R10', 'isnpint: no round() of the argument')
+    for c in rounds:
+        ok = False
+        p_ = c
+        while p_ is not g.node:
+            par = p_._parent
+            if isinstance(par, ast.BoolOp) and isinstance(par.op, ast.And):
+                idx = [i for i, v in enumerate(par.values) if v is p_ or any(p_ is y for y in ast.walk(v))][0]
+                for v in par.values[:idx]:
+                    t = norm(v).replace(' ', '')
+                    if t in ('%s-%s==0.0' % (x, x), '%s-%s==0' % (x, x)) or \
+                            any(isinstance(y, ast.Call) and norm(y.func).split('.')[-1] in ('isinf', 'isfinite') for y in ast.walk(v)):
+                        ok = True
+            p_ = par
+        if ok:
+            run.ok('N-R10', 'isnpint: round(%s) only after the infinities are excluded' % x)
+        else:
+            run.fail(Finding('N-R10', FP, g.qualname, norm(c),
+                             'round() of an infinity raises: fp.isnpint(-inf) is OverflowError instead of False (and with it '
+                             'fp.rf(-inf, 2), fp.binomial(-inf, 2), fp.psi(0, -inf))', line=c.lineno))
